@@ -25,12 +25,13 @@ ENUM_LEN = {"quick": 3, "thorough": 4}
 PROBES = ["offset_after_reonset", "inset_after_offset", "same_name_different_value", "two_markers_one_name_one_timepoint",
           "case_variant_names", "delay_shifted_marker", "equal_onset_rows", "rows_shuffled", "scope_left_open_at_end",
           "unmatched_reported", "enumerated_short_history", "file_level_runs", "api_level_runs", "concurrent_order_matters",
-          "def_expand_spelling", "noise_error_rows"]
+          "def_expand_spelling", "noise_error_rows", "validator_object_reused", "marker_row_with_warning_only_tag"]
 RULE = ("Runs 0..N-1 enumerate every history of up to 3 (quick) / 4 (thorough) single-marker time points over "
         "{Onset,Offset,Inset} x {A, B/3} (exhaustive floor); the other runs are seeded histories of 2-10 time points with "
         "1-3 markers each over 1-3 definition names in plain / valued / case-variant spelling, driven through the API "
-        "stepper and (2 of 3 runs) through an events file with equal-onset row splitting, Delay shifts and optional row "
-        "shuffling.  Non-trivial: the history contains an unmatched marker, a re-Onset, or two markers for one name in one "
+        "stepper and (2 of 3 runs) through an events file with equal-onset row splitting, Delay shifts, optional row "
+        "shuffling, plain tags that draw warnings only, and (3 in 10) on a SpreadsheetValidator object that validated "
+        "another file before.  Non-trivial: the history contains an unmatched marker, a re-Onset, or two markers for one name in one "
         "time point.  Distinct = distinct sha-256 of (scenario, observed issues).")
 COMPONENTS = {"real": ["OnsetValidator", "SpreadsheetValidator._run_onset_checks/_run_checks", "df_util.split_delay_tags/"
                        "sort_dataframe_by_onsets/filter_series_by_onset", "TabularInput", "HedString", "HedValidator", "schema 8.3.0"],
@@ -152,7 +153,10 @@ def generate(run_index, seed, tier):
                     (tgt if g.chance(0.7) else g.pick(buckets)).append(txt)
             for b in buckets:
                 if b or g.chance(0.3):
-                    hed = ", ".join(b + ([g.pick(["Red", "Blue", "Green"])] if g.chance(0.3) or not b else []))
+                    # plain tags beside the markers; the lower-case and the extended one draw a warning only (a row with
+                    # nothing worse than a warning takes part in the temporal pass like any other)
+                    hed = ", ".join(b + ([g.pick(["Red", "Blue", "Green", "red", "Item/Newthing", "blue"])]
+                                         if g.chance(0.4) or not b else []))
                     rows.append([g.pick(["%g", "%.2f", "%.1f"]) % T if (T * 10) % 1 == 0 else "%g" % T, hed, ti])
         # keep file order = time order (stable by construction index), unless shuffled
         rows.sort(key=lambda r: (times[r[2]], 0))
@@ -167,6 +171,15 @@ def generate(run_index, seed, tier):
         sc["shuffle"] = g.chance(0.3)
         if sc["shuffle"]:
             sc["rows"] = g.shuffled(sc["rows"])
+        if g.chance(0.3):
+            # the same SpreadsheetValidator object validated another file before (which leaves scopes open at its end)
+            prev, t = [], 0.0
+            for key in g.subset(keys if not sc["enumerated"] else ["A", "B/3"], 1, 2):
+                t += 1.0
+                prev.append(["%g" % t, _marker_text("Onset", g.pick(SPELL[key]))])
+            if g.chance(0.3):
+                prev.append(["%g" % (t + 1), "Red"])
+            sc["prev_rows"] = prev
     return sc
 
 
@@ -356,7 +369,14 @@ def execute(sc, script=None):
         pd = W["pd"]
         df = pd.DataFrame(sc["rows"], columns=["onset", "HED"])
         try:
-            issues = W["TabularInput"](df).validate(W["schema"], extra_def_dicts=W["dd"])
+            if sc.get("prev_rows"):
+                probe("validator_object_reused")
+                from hed.validator.spreadsheet_validator import SpreadsheetValidator
+                sv = SpreadsheetValidator(W["schema"])
+                sv.validate(W["TabularInput"](pd.DataFrame(sc["prev_rows"], columns=["onset", "HED"])), def_dicts=W["dd"])
+                issues = sv.validate(W["TabularInput"](df), def_dicts=W["dd"])
+            else:
+                issues = W["TabularInput"](df).validate(W["schema"], extra_def_dicts=W["dd"])
         except Exception as e:  # noqa
             viol("no-exception", "validating the events table %s raised %s: %s" % (sc["rows"], type(e).__name__, str(e)[:300]),
                  "file-raises-%s" % type(e).__name__)
@@ -377,6 +397,8 @@ def execute(sc, script=None):
             probe("def_expand_spelling")
         if any(r[1] in ("Grren", "Red, Redd", "(Blue, Green") for r in sc["rows"]):
             probe("noise_error_rows")
+        if any(re.search(r"(?<![\w/-])(red|blue|Item/Newthing)(?![\w-])", r[1]) and "(" in r[1] for r in sc["rows"]):
+            probe("marker_row_with_warning_only_tag")
         # all outcomes the nondeterministic model can produce for the whole file
         paths = {(frozenset(), ())}
         for tp in hist:
